@@ -6,7 +6,7 @@ from vf import findings, hyp
 from vf.gens import corpus, grammar, mutate
 
 PROPERTY = 'C02'
-RULE = ('cases = (dialect, text): corpus statements, random grammar derivations, single/double token mutations of '
+RULE = ('cases = (dialect, text): coverage-guided byte-level campaign (atheris/libFuzzer, dictionary of all lexemes, 16 processes) + corpus statements, random grammar derivations, single/double token mutations of '
         'both, random lexeme sequences, SQL-flavoured and arbitrary Unicode text; non-trivial = not verbatim from the '
         'corpus and lexes completely (reaches the parser); distinct by (dialect, text)')
 ASSUMPTIONS = ['termination is observed under a 30 s per-case watchdog, not proved',
@@ -153,7 +153,46 @@ def cases(draw, pool='lite'):
     return {'dialect': d, 'sql': sql, 'origin': mode}
 
 
+FUZZ_RUNS = {'quick': 15000, 'thorough': 300000}
+
+
+def fuzz_part(col, k, tier, seed):
+    """Coverage-guided campaign (atheris / libFuzzer) with the same oracle inside the target; one process per shard,
+    pinned by -seed and a run budget (a libFuzzer campaign is only approximately reproducible: the saved failing
+    input is the reproducible unit and is judged again here by judge())."""
+    import glob, json, os, shutil, subprocess, sys, tempfile
+    from vf import lib
+    deps = os.path.join(lib.VERIF, '.deps')
+    if not os.path.isdir(os.path.join(deps, 'atheris')):
+        col.notes.append('atheris not installed (bin/setup installs it into .deps): fuzz part skipped')
+        col.excluded('fuzz part skipped: atheris missing')
+        return
+    out = tempfile.mkdtemp(prefix='vf-c02-fuzz-')
+    try:
+        env = dict(os.environ, PYTHONPATH=lib.VERIF + os.pathsep + deps, PYTHONHASHSEED='0')
+        cmd = ['/venv/bin/python', '-m', 'vf.fuzz.c02_target', out, str(k % 2), f'-runs={FUZZ_RUNS[tier]}',
+               f'-seed={(seed % 2 ** 31) or 1}', '-max_len=160', '-print_final_stats=0']
+        subprocess.run(cmd, cwd=lib.VERIF, env=env, capture_output=True, text=True, timeout=3600)
+        st = {}
+        if os.path.exists(os.path.join(out, 'stats.json')):
+            st = json.load(open(os.path.join(out, 'stats.json')))
+        col.evaluations += st.get('execs', 0)
+        for name in ('accepted', 'rejected', 'lexerror'):
+            col.classes['fuzz:' + name] += st.get(name, 0)
+        col.classes['fuzz:execs'] += st.get('execs', 0)
+        for f in sorted(glob.glob(os.path.join(out, 'crash-*.json'))):
+            c = json.load(open(f))
+            case = {'dialect': c['dialect'], 'sql': c['sql'], 'origin': 'atheris'}
+            for rec in judge(case, col):
+                col.fail(rec, case)
+    except subprocess.TimeoutExpired:
+        col.notes.append('fuzz part hit its safety time limit: inconclusive, not a violation')
+    finally:
+        shutil.rmtree(out, ignore_errors=True)
+
+
 def run_shard(col, k, nshards, tier, seed):
+    fuzz_part(col, k, tier, seed)
     if k == 0:
         for x in corpus.accepted() + corpus.rejected():
             c = {'dialect': x['dialect'], 'sql': x['sql'], 'origin': 'corpus'}
